@@ -52,4 +52,85 @@ structure AbsCtx (K : Type) where
   cy : K
   cz : K
 
+/-! ### the target-counting loop of `LocalNetwork::revision_observations()`
+
+The body executed for every `Direction* d` of a `StandPoint`'s `observation_list` is REGENERATED
+(`Gen.targetsBody`) as a term of the little statement language below; `TStmt.run` is its
+interpreter.  `std::set<PointID> targets` is a duplicate-free list in insertion order (`find` =
+membership, `insert` appends when absent and reports whether it did); `it` is the iterator variable
+declared by `std::set<PointID>::const_iterator s = targets.find(d->to());` (true: `s != targets.end()`;
+`std::set` insertions do not invalidate it, and `end()` stays `end()`). -/
+
+structure TState where
+  /-- `targets`, insertion order -/
+  targets : List Nat
+  /-- `active_directions` -/
+  count : Nat
+  /-- the declared iterator is not `targets.end()` -/
+  it : Bool
+deriving DecidableEq, Repr
+
+inductive TCond where
+  /-- `d->active()` -/
+  | active
+  /-- `targets.find(d->to()) != targets.end()` / `targets.count(d->to())` -/
+  | found
+  /-- `s != targets.end()` for the declared iterator `s` -/
+  | itFound
+  /-- `targets.insert(d->to()).second` — INSERTS, true iff the target was not in the set -/
+  | insertedNew
+  | not (c : TCond)
+  /-- `a && b`, short-circuit -/
+  | and (a b : TCond)
+  /-- `a || b`, short-circuit -/
+  | or (a b : TCond)
+deriving DecidableEq, Repr
+
+inductive TStmt where
+  | skip
+  /-- `active_directions++` -/
+  | inc
+  /-- `targets.insert(d->to());` -/
+  | insert
+  /-- `std::set<PointID>::const_iterator s = targets.find(d->to());` -/
+  | declFind
+  | seq (a b : TStmt)
+  | ite (c : TCond) (t e : TStmt)
+deriving DecidableEq, Repr
+
+def TState.insert (s : TState) (to : Nat) : TState :=
+  if s.targets.contains to then s else { s with targets := s.targets ++ [to] }
+
+/-- evaluation of a condition for the direction with `d->active() = act`, `d->to() = to`;
+    returns the value and the state after its side effects -/
+def TCond.eval (act : Bool) (to : Nat) : TCond → TState → Bool × TState
+  | .active, s => (act, s)
+  | .found, s => (s.targets.contains to, s)
+  | .itFound, s => (s.it, s)
+  | .insertedNew, s => (!s.targets.contains to, s.insert to)
+  | .not c, s => let r := c.eval act to s; (!r.1, r.2)
+  | .and a b, s => let r := a.eval act to s; if r.1 then b.eval act to r.2 else (false, r.2)
+  | .or a b, s => let r := a.eval act to s; if r.1 then (true, r.2) else b.eval act to r.2
+
+def TStmt.run (act : Bool) (to : Nat) : TStmt → TState → TState
+  | .skip, s => s
+  | .inc, s => { s with count := s.count + 1 }
+  | .insert, s => s.insert to
+  | .declFind, s => { s with it := s.targets.contains to }
+  | .seq a b, s => b.run act to (a.run act to s)
+  | .ite c t e, s => let r := c.eval act to s; if r.1 then t.run act to r.2 else e.run act to r.2
+
+/-- comparison operator of `if (active_directions <op> N)` -/
+inductive TCmp where
+  | lt | le | gt | ge | eq | ne
+deriving DecidableEq, Repr
+
+def TCmp.holds : TCmp → Nat → Nat → Bool
+  | .lt, a, b => decide (a < b)
+  | .le, a, b => decide (a ≤ b)
+  | .gt, a, b => decide (a > b)
+  | .ge, a, b => decide (a ≥ b)
+  | .eq, a, b => a == b
+  | .ne, a, b => a != b
+
 end Gama.Rev
